@@ -228,6 +228,87 @@ fn pat_binds_by_mut_ref(p: &Pat) -> bool {
 }
 
 impl Norm {
+    fn inline_local_closures(&mut self, b: &mut Block) {
+        let mut idx = 0;
+        while idx < b.stmts.len() {
+            let cand = match &b.stmts[idx] {
+                Stmt::Local(l) => match (&l.pat, &l.init) {
+                    (Pat::Ident(pi), Some(init)) if init.diverge.is_none() && pi.by_ref.is_none() => match &*init.expr {
+                        Expr::Closure(c) if !body_has_return(&c.body) && c.inputs.iter().all(|p| matches!(p, Pat::Ident(_)) || matches!(p, Pat::Type(pt) if matches!(&*pt.pat, Pat::Ident(_)))) => {
+                            Some((pi.ident.clone(), c.clone(), l.let_token.span))
+                        }
+                        _ => None,
+                    },
+                    _ => None,
+                },
+                _ => None,
+            };
+            if let Some((name, clo, sp)) = cand {
+                // uses of NAME other than as the callee of a call?
+                struct Uses<'a> {
+                    name: &'a Ident,
+                    calls: usize,
+                    other: usize,
+                }
+                impl<'ast, 'a> syn::visit::Visit<'ast> for Uses<'a> {
+                    fn visit_expr_call(&mut self, c: &'ast ExprCall) {
+                        if let Expr::Path(p) = &*c.func {
+                            if p.path.is_ident(self.name) {
+                                self.calls += 1;
+                                for a in c.args.iter() {
+                                    self.visit_expr(a);
+                                }
+                                return;
+                            }
+                        }
+                        syn::visit::visit_expr_call(self, c);
+                    }
+                    fn visit_expr_path(&mut self, p: &'ast ExprPath) {
+                        if p.path.is_ident(self.name) {
+                            self.other += 1;
+                        }
+                    }
+                }
+                let mut u = Uses { name: &name, calls: 0, other: 0 };
+                for st in b.stmts.iter().skip(idx + 1) {
+                    syn::visit::Visit::visit_stmt(&mut u, st);
+                }
+                if u.calls > 0 && u.other == 0 {
+                    struct Inl<'a> {
+                        name: &'a Ident,
+                        clo: &'a ExprClosure,
+                    }
+                    impl<'a> VisitMut for Inl<'a> {
+                        fn visit_expr_mut(&mut self, e: &mut Expr) {
+                            visit_mut::visit_expr_mut(self, e);
+                            if let Expr::Call(c) = e {
+                                if let Expr::Path(p) = &*c.func {
+                                    if p.path.is_ident(self.name) && c.args.len() == self.clo.inputs.len() {
+                                        let mut lets: Vec<Stmt> = vec![];
+                                        for (pat, arg) in self.clo.inputs.iter().zip(c.args.iter()) {
+                                            lets.push(parse_quote!(let #pat = #arg;));
+                                        }
+                                        let body = &self.clo.body;
+                                        let ne: Expr = parse_quote!({ #(#lets)* #body });
+                                        *e = ne;
+                                    }
+                                }
+                            }
+                        }
+                    }
+                    let mut inl = Inl { name: &name, clo: &clo };
+                    for st in b.stmts.iter_mut().skip(idx + 1) {
+                        inl.visit_stmt_mut(st);
+                    }
+                    b.stmts.remove(idx);
+                    self.log("N7i-inline-local-closure", sp);
+                    continue;
+                }
+            }
+            idx += 1;
+        }
+    }
+
     /// N9c: `for P in NAME.iter()` over an opaque collection => `for P in FN(NAME)` (option iter_vec=NAME:FN;
     /// FN is an assumed-contract function returning the iteration sequence as a Vec)
     fn n9c(&mut self, f: &mut syn::ExprForLoop) {
@@ -542,6 +623,9 @@ impl VisitMut for Norm {
     }
 
     fn visit_block_mut(&mut self, b: &mut Block) {
+        // N7i: a local closure that is only ever called (`let f = |p..| B; ... f(a..) ...`) is expanded at its call sites
+        // (beta reduction: `{ let p = a; ..; B }`); only when B has no `return` and the parameters are plain identifiers
+        self.inline_local_closures(b);
         // statement-position macros become expression statements so that one rewriter handles both
         let mut new_stmts = Vec::with_capacity(b.stmts.len());
         let n = b.stmts.len();
@@ -685,6 +769,27 @@ impl VisitMut for Norm {
                 return;
             }
         }
+        // N7h: OPT.is_some_and(|p| B) => match OPT { Some(p) => B, None => false }; OPT.is_none_or(|p| B) => ... None => true (definitions)
+        if let Expr::MethodCall(mc) = e {
+            let nm = mc.method.to_string();
+            if (nm == "is_some_and" || nm == "is_none_or") && mc.args.len() == 1 {
+                if let Expr::Closure(c) = &mc.args[0] {
+                    if c.inputs.len() == 1 && !body_has_return(&c.body) {
+                        let sp = mc.method.span();
+                        let pat = match c.inputs[0].clone() {
+                            Pat::Type(pt) => *pt.pat,
+                            p => p,
+                        };
+                        let body = &c.body;
+                        let recv = &mc.receiver;
+                        let dflt: Expr = if nm == "is_some_and" { parse_quote!(false) } else { parse_quote!(true) };
+                        let ne: Expr = parse_quote!(match #recv { Some(#pat) => #body, None => #dflt });
+                        *e = ne;
+                        self.log("N7h-is_some_and", sp);
+                    }
+                }
+            }
+        }
         // N8 (pre-order so that the produced loop gets the for-loop rules N8e/N9/N18): ITER.for_each(|p| B) => for p in ITER { B }
         if let Expr::MethodCall(mc) = e {
             if mc.method == "for_each" && mc.args.len() == 1 {
@@ -763,6 +868,19 @@ impl VisitMut for Norm {
                 self.lvalue_depth += 1;
                 self.visit_expr_mut(&mut r.expr);
                 self.lvalue_depth -= 1;
+                // N14: `&mut E[i]` in diverge mode => `E.hq_index_mut(i)` (out of range diverges)
+                if self.diverge {
+                    if let Expr::Index(ix) = &*r.expr {
+                        if !matches!(&*ix.index, Expr::Range(_)) {
+                            let sp = ix.bracket_token.span.open();
+                            let base = &ix.expr;
+                            let idx = &ix.index;
+                            let ne: Expr = parse_quote!((#base).hq_index_mut(#idx));
+                            *e = ne;
+                            self.log("N14-index-write-diverge", sp);
+                        }
+                    }
+                }
             }
             Expr::MethodCall(mc) => {
                 // receivers are read optimistically (a mutating method on a rewritten read fails to compile => exit 2)
@@ -973,6 +1091,17 @@ impl VisitMut for Norm {
                         } else {
                             mc.method = Ident::new("unwrap", sp);
                             self.log("N3-unwrap_or_else-panic", sp);
+                        }
+                    }
+                    "or_insert" if self.entry_place && mc.args.len() == 1 && matches!(&*mc.receiver, Expr::MethodCall(en) if en.method == "entry" && en.args.len() == 1) => {
+                        // N8g2: `M.entry(K).or_insert(V)` as a place => hq_map_entry_or_insert(&mut M, K, V)
+                        if let Expr::MethodCall(en) = &*mc.receiver {
+                            let m = &en.receiver;
+                            let k = &en.args[0];
+                            let v = &mc.args[0];
+                            let ne: Expr = parse_quote!(hq_map_entry_or_insert(&mut #m, #k, #v));
+                            *e = ne;
+                            self.log("N8g2-entry-or_insert", sp);
                         }
                     }
                     "or_default" if self.entry_place && mc.args.is_empty() && matches!(&*mc.receiver, Expr::MethodCall(en) if en.method == "entry" && en.args.len() == 1) => {
@@ -1216,7 +1345,7 @@ impl VisitMut for Norm {
                         _ => p_inner.clone(),
                     };
                     let np: Pat = match ty {
-                        Some(t) => parse_quote!(#np : #t),
+                        Some(t) => Pat::Type(PatType { attrs: vec![], pat: Box::new(np), colon_token: Default::default(), ty: Box::new(t.clone()) }),
                         None => np,
                     };
                     new_inputs.push(np);
@@ -1335,6 +1464,68 @@ fn block_has_continue(b: &Block) -> bool {
     v.0
 }
 
+/// every `continue` of the chain is the last statement of one of its branches (and at least one branch has one)
+fn chain_tail_continue_only(i: &ExprIf) -> bool {
+    fn branch_ok(b: &Block, found: &mut bool) -> bool {
+        let mut body = b.clone();
+        if matches!(body.stmts.last(), Some(Stmt::Expr(Expr::Continue(c), _)) if c.label.is_none()) {
+            body.stmts.pop();
+            *found = true;
+        }
+        !block_has_continue(&body)
+    }
+    let mut found = false;
+    let mut cur = i;
+    loop {
+        if !branch_ok(&cur.then_branch, &mut found) {
+            return false;
+        }
+        match &cur.else_branch {
+            None => break,
+            Some((_, e)) => match &**e {
+                Expr::If(n) => cur = n,
+                Expr::Block(b) => {
+                    if !branch_ok(&b.block, &mut found) {
+                        return false;
+                    }
+                    break;
+                }
+                _ => return false,
+            },
+        }
+    }
+    found
+}
+
+fn push_rest_into_chain(i: &mut ExprIf, rest: &[Stmt]) {
+    fn fix(b: &mut Block, rest: &[Stmt]) {
+        if matches!(b.stmts.last(), Some(Stmt::Expr(Expr::Continue(_), _))) {
+            b.stmts.pop();
+        } else {
+            // a tail expression of unit type becomes a statement before REST is appended
+            if let Some(Stmt::Expr(e, None)) = b.stmts.pop() {
+                b.stmts.push(Stmt::Expr(e, Some(Default::default())));
+            } else if let Some(st) = b.stmts.pop() {
+                b.stmts.push(st);
+            }
+            // (pop/push above only normalises a trailing expression)
+            b.stmts.extend(rest.iter().cloned());
+        }
+    }
+    fix(&mut i.then_branch, rest);
+    match &mut i.else_branch {
+        None => {
+            let els: Block = Block { brace_token: Default::default(), stmts: rest.to_vec() };
+            i.else_branch = Some((Default::default(), Box::new(Expr::Block(ExprBlock { attrs: vec![], label: None, block: els }))));
+        }
+        Some((_, e)) => match &mut **e {
+            Expr::If(n) => push_rest_into_chain(n, rest),
+            Expr::Block(b) => fix(&mut b.block, rest),
+            _ => {}
+        },
+    }
+}
+
 fn eliminate_continue(stmts: Vec<Stmt>) -> std::result::Result<Vec<Stmt>, String> {
     let mut out = vec![];
     let mut iter = stmts.into_iter();
@@ -1374,6 +1565,23 @@ fn eliminate_continue(stmts: Vec<Stmt>) -> std::result::Result<Vec<Stmt>, String
                 let e = init.expr;
                 let ne: Expr = parse_quote!(if let #pat = #e { #(#rest)* } else #d);
                 out.push(Stmt::Expr(ne, None));
+                return Ok(out);
+            }
+            unreachable!();
+        }
+        // general if / else-if / else chain in which some branches END with `continue`:
+        //   `if c1 {B1} else if c2 {B2; continue;} else {B3}  REST`  =>  `if c1 {B1; REST} else if c2 {B2} else {B3; REST}`
+        let is_chain_continue = !is_if_continue
+            && match &st {
+                Stmt::Expr(Expr::If(i), _) => i.else_branch.is_some() && chain_tail_continue_only(i),
+                _ => false,
+            };
+        if is_chain_continue {
+            if let Stmt::Expr(Expr::If(mut i), _) = st {
+                let rest: Vec<Stmt> = iter.collect();
+                let rest = eliminate_continue(rest)?;
+                push_rest_into_chain(&mut i, &rest);
+                out.push(Stmt::Expr(Expr::If(i), None));
                 return Ok(out);
             }
             unreachable!();
